@@ -3,6 +3,7 @@ generated types are covered once the generated-code corpus exists, see C02)."""
 import os
 import common as c
 import thrift_rt as rt
+import gencheck
 
 
 def run(rep, tier, seed, replay):
@@ -39,4 +40,5 @@ def run(rep, tier, seed, replay):
         "exhaustive": False,
     }
     rep.assumptions = ["size of generated types is checked by C02's machinery"]
+    rep.cov.update(gencheck.add_tagged(rep, "C04", tier, seed))
     return "model_checking"
